@@ -1,5 +1,5 @@
-(* C09: what the faithful model refutes (F9a zero Next, F9b overlapping start schedules, F13a/b loader panics),
-   as witnesses computed by vm_compute, and concrete histories showing that the premises of the theorems are
+(* C09: what the faithful model refutes (F9a zero Next, F9b overlapping start schedules), as witnesses computed
+   by vm_compute, and concrete histories showing that the premises of the theorems are
    satisfiable.  The witnesses are the inputs replayed on the real code by tools/props/C09.py (findings/). *)
 From Coq Require Import List Bool Arith ZArith Lia String.
 Import ListNotations.
@@ -132,36 +132,16 @@ Proof.
   split; [apply ticks_monob_ok; vm_compute; reflexivity | vm_compute; reflexivity].
 Qed.
 
-(* F13a / F13b: one file on which the loader panics kills the daemon; the other DAGs are not scheduled any more:
-   no_miss fails without `alive`, and `alive` fails without dir_safe / op_safe *)
-Theorem no_miss_refuted_scan : exists d ops s m w cs f c e sp,
-  NoDup (map fst d) /\ In (s, OTick m w, cs) (trace (init_state d) ops) /\
-  lookup f (dir s) = Some c /\ load f c = FOk e /\ In sp (starts e) /\ matches sp m = true /\
-  mem f (susp s) = false /\ start_guard (status_of s f) m = true /\ ~ In (CStart f) cs.
-Proof.
-  set (s := after d_f13a [ORestart]). set (c := content_of s "d0.yaml"). set (e := loaded "d0.yaml" c).
-  exists d_f13a, [ORestart; OTick m0 (60 * m0)], s, m0, (60 * m0), [], "d0.yaml", c, e, (hd feb30 (starts e)).
-  split; [apply nodupb_ok; vm_compute; reflexivity|].
-  split; [vm_compute; right; left; reflexivity|].
-  split; [vm_compute; reflexivity|].
-  split; [vm_compute; reflexivity|].
-  split; [vm_compute; left; reflexivity|].
-  split; [vm_compute; reflexivity|].
-  split; [vm_compute; reflexivity|].
-  split; [vm_compute; reflexivity | intros []].
-Qed.
-
-Theorem bad_file_refuted_watcher : exists s f c h e,
-  alive s = true /\ h <> f /\ lookup h (tbl s) = Some e /\
-  alive (fst (step s (OWrite f c))) = false /\ tick_calls (fst (step s (OWrite f c))) m0 = [] /\
-  In (CStart h) (tick_calls s m0).
-Proof.
-  exists (after d_good [ORestart]), "d1.yaml", (file (SStr "CRON_TZ=UTC")), "d0.yaml", (entry_of (after d_good [ORestart]) "d0.yaml").
-  split; [vm_compute; reflexivity|].
-  split; [intro H; apply (f_equal (String.eqb "d0.yaml")) in H; vm_compute in H; discriminate|].
-  split; [vm_compute; reflexivity|]. split; [vm_compute; reflexivity|]. split; [vm_compute; reflexivity|].
-  vm_compute. left. reflexivity.
-Qed.
+(* The former F13a / F13b witnesses (a schedule map with an unknown key; a schedule that is only a zone prefix),
+   at start-up and through the watcher: since c2912bd / 519d0a6 such a file merely fails to load - the daemon
+   lives and the other DAG is started. *)
+Example former_loader_panics_are_errors :
+  run (init_state d_f13a) [ORestart; OTick m0 (60 * m0)] = [[]; [CStart "d0.yaml"]] /\
+  alive (final (init_state d_f13a) [ORestart]) = true /\
+  run (init_state d_good) [ORestart; OWrite "d1.yaml" (file (SStr "CRON_TZ=UTC")); OTick m0 (60 * m0)] = [[]; []; [CStart "d0.yaml"]] /\
+  load "d1.yaml" (file (SStr "CRON_TZ=UTC")) = FErr /\
+  load "d1.yaml" (file (SMap [(KStr "begin", MStr "* * * * *")])) = FErr.
+Proof. vm_compute. repeat split. Qed.
 
 (* ---------------------------------------------------------------------------------------- *)
 (* the premises are satisfiable                                                               *)
